@@ -221,13 +221,32 @@ IdOfNum(nv) == IF nv.e < 0 \/ nv.e > 40 THEN VErr
                ELSE VStr((IF nv.neg THEN <<MINUS>> ELSE <<>>) \o AsChars(nv.d \o Zeros(nv.e)))
 
 \* ---------------------------------------------------------------- the schema of the harness (harness/cmd/args: types, inFields)
-ElemTy(ty) == CASE ty = "LInt" -> "Int" [] ty = "LStr" -> "String" [] ty = "LE" -> "E" [] ty = "LIn" -> "In"
-                [] ty = "LLInt" -> "LInt" [] ty = "LBig" -> "Big" [] ty = "Big" -> "Big" [] OTHER -> "?"
+\* types with an argument default are separate type codes (A..): same GraphQL type, root field f_<code>(a: T = default)
+Base(ty) == CASE ty = "AInt" -> "Int" [] ty = "AStr" -> "String" [] ty = "AE" -> "E" [] ty = "ALInt" -> "LInt"
+              [] ty = "AInD" -> "InD" [] ty = "ALInD2" -> "LInD2" [] OTHER -> ty
+ElemTy(t0) == LET ty == Base(t0) IN
+              CASE ty = "LInt" -> "Int" [] ty = "LStr" -> "String" [] ty = "LE" -> "E" [] ty = "LIn" -> "In"
+                [] ty = "LLInt" -> "LInt" [] ty = "LBig" -> "Big" [] ty = "Big" -> "Big"
+                [] ty = "LInD" -> "InD" [] ty = "LInD2" -> "InD2" [] OTHER -> "?"
 InFieldTy(key) == CASE key = <<105>> -> "Int" [] key = <<115>> -> "String" [] key = <<102>> -> "Float"
                     [] key = <<98>> -> "Boolean" [] key = <<101>> -> "E" [] key = <<100>> -> "ID" [] key = <<103>> -> "Big"
                     [] key = <<108>> -> "LInt" [] key = <<108, 115>> -> "LStr" [] key = <<111>> -> "In"
                     [] key = <<108, 111>> -> "LIn" [] OTHER -> "?"
-FieldTy(ty, key) == IF ty = "Big" THEN "Big" ELSE IF ty = "In" THEN InFieldTy(key) ELSE "?"
+(* InD  { i: Int = 7, s: String = "d\t\"q", e: E = B, f: Float = 1.5e1, l: [Int] = [1, 2], o: InD2 = {y: "z"},      *)
+(*        lo: [InD2] = [{x: 1}, {}], n: Int }          InD2 { x: Int = 9, y: String }                             *)
+(* M    is not a type: the pseudo object of the arguments of  f_M(a: Int, b: Int, c: ID, d: String, e: [Int], f: Float) *)
+ObjKeyTy(ty) ==
+  CASE ty = "InD" -> << <<<<105>>, "Int">>, <<<<115>>, "String">>, <<<<101>>, "E">>, <<<<102>>, "Float">>, <<<<108>>, "LInt">>,
+                        <<<<111>>, "InD2">>, <<<<108, 111>>, "LInD2">>, <<<<110>>, "Int">> >>
+    [] ty = "InD2" -> << <<<<120>>, "Int">>, <<<<121>>, "String">> >>
+    [] ty = "M" -> << <<<<97>>, "Int">>, <<<<98>>, "Int">>, <<<<99>>, "ID">>, <<<<100>>, "String">>, <<<<101>>, "LInt">>,
+                      <<<<102>>, "Float">> >>
+    [] OTHER -> <<>>
+FieldTy(t0, key) ==
+  LET ty == Base(t0) IN
+  IF ty = "Big" THEN "Big" ELSE IF ty = "In" THEN InFieldTy(key)
+  ELSE LET kt == ObjKeyTy(ty) IN
+       IF \E i \in 1..Len(kt) : kt[i][1] = key THEN kt[CHOOSE i \in 1..Len(kt) : kt[i][1] = key][2] ELSE "?"
 TrueText == <<116, 114, 117, 101>>
 
 \* ---------------------------------------------------------------- Denotes
@@ -245,7 +264,7 @@ Den(e, ty, vars, json) ==
   CASE e.k = "omit" -> VX
     [] e.k = "null" -> VNull
     [] e.k = "str" -> LET q == Quoted(e.text, json) IN
-                      IF ~q.ok THEN VErr ELSE IF json /\ ty = "E" THEN VEnum(q.v) ELSE VStr(q.v)
+                      IF ~q.ok THEN VErr ELSE IF json /\ Base(ty) = "E" THEN VEnum(q.v) ELSE VStr(q.v)
     [] e.k = "bstr" -> IF BlockAccepts(e.text) THEN VStr(BlockValue(e.text)) ELSE VErr
     [] e.k = "num" -> IF ~NumAccepts(e.text) THEN VErr
                       ELSE IF ty = "ID" THEN IdOfNum(NumValue(e.text)) ELSE VNum(NumValue(e.text))
@@ -327,6 +346,56 @@ ToJExpr(v) ==
     [] v.t = "o" -> [k |-> "obj", text |-> <<>>, items |-> [i \in 1..Len(v.c) |-> ToJExpr(v.c[i])], keys |-> v.k]
     [] OTHER -> Omit
 Twin(c) == LET d == Denotes(c) IN IF d.t = "x" \/ HasErr(d) THEN Omit ELSE ToJExpr(d)
+
+\* ---------------------------------------------------------------- schema defaults and input coercion (sec. 3.10, 6.4.1)
+ListE(items) == [k |-> "list", text |-> <<>>, items |-> items, keys |-> <<>>]
+ObjE(keys, items) == [k |-> "obj", text |-> <<>>, items |-> items, keys |-> keys]
+Num(text) == Leaf("num", text)
+\* "d\t\"q"  (escapes in a schema default)
+DefStr == Leaf("str", <<100, 92, 116, 92, 34, 113>>)
+FieldDefault(ty, key) ==
+  CASE ty = "InD" /\ key = <<105>> -> Num(<<55>>)
+    [] ty = "InD" /\ key = <<115>> -> DefStr
+    [] ty = "InD" /\ key = <<101>> -> Leaf("enum", <<66>>)
+    [] ty = "InD" /\ key = <<102>> -> Num(<<49, 46, 53, 101, 49>>)
+    [] ty = "InD" /\ key = <<108>> -> ListE(<<Num(<<49>>), Num(<<50>>)>>)
+    [] ty = "InD" /\ key = <<111>> -> ObjE(<< <<121>> >>, <<Leaf("str", <<122>>)>>)
+    [] ty = "InD" /\ key = <<108, 111>> -> ListE(<<ObjE(<< <<120>> >>, <<Num(<<49>>)>>), ObjE(<<>>, <<>>)>>)
+    [] ty = "InD2" /\ key = <<120>> -> Num(<<57>>)
+    [] OTHER -> Omit
+\* f_AInt(a: Int = 7)  f_AStr(a: String = "d\t\"q")  f_AE(a: E = B)  f_ALInt(a: [Int] = [1, null])
+\* f_AInD(a: InD = {s: "given"})  f_ALInD2(a: [InD2] = [{}, {x: 2}])
+ArgDefault(ty) ==
+  CASE ty = "AInt" -> Num(<<55>>) [] ty = "AStr" -> DefStr [] ty = "AE" -> Leaf("enum", <<66>>)
+    [] ty = "ALInt" -> ListE(<<Num(<<49>>), Leaf("null", <<110, 117, 108, 108>>)>>)
+    [] ty = "AInD" -> ObjE(<< <<115>> >>, <<Leaf("str", <<103, 105, 118, 101, 110>>)>>)
+    [] ty = "ALInD2" -> ListE(<<ObjE(<<>>, <<>>), ObjE(<< <<120>> >>, <<Num(<<50>>)>>)>>)
+    [] OTHER -> Omit
+HasDefaults(ty) == ty \in {"InD", "InD2"}
+
+(* Coerce(v, ty): the value the service computes from a provided / not provided value: a not provided argument takes  *)
+(* the argument default, a not provided input field its field default (recursively coerced), an explicit null stays *)
+(* null.  Identity on types without defaults.                                                                       *)
+RECURSIVE Coerce(_, _)
+RECURSIVE CoerceObj(_, _, _, _, _, _)
+CoerceObj(v, ty, kt, i, ak, av) ==
+  IF i > Len(kt) THEN VObj(ak, av)
+  ELSE LET key == kt[i][1]
+           fty == kt[i][2]
+       IN IF \E j \in 1..Len(v.k) : v.k[j] = key
+          THEN CoerceObj(v, ty, kt, i + 1, Append(ak, key), Append(av, Coerce(v.c[CHOOSE j \in 1..Len(v.k) : v.k[j] = key], fty)))
+          ELSE IF FieldDefault(ty, key).k # "omit"
+          THEN CoerceObj(v, ty, kt, i + 1, Append(ak, key), Append(av, Coerce(Den(FieldDefault(ty, key), fty, <<>>, FALSE), fty)))
+          ELSE CoerceObj(v, ty, kt, i + 1, ak, av)
+Coerce(v, t0) ==
+  LET ty == Base(t0) IN
+  CASE v.t = "x" -> IF ArgDefault(t0).k # "omit" THEN Coerce(Den(ArgDefault(t0), ty, <<>>, FALSE), ty) ELSE v
+    [] v.t = "l" -> VList([i \in 1..Len(v.c) |-> Coerce(v.c[i], ElemTy(ty))])
+    [] v.t = "o" /\ HasDefaults(ty) ->
+         IF (\E i, j \in 1..Len(v.k) : i # j /\ v.k[i] = v.k[j]) \/ (\E i \in 1..Len(v.k) : FieldTy(ty, v.k[i]) = "?")
+         THEN VErr ELSE CoerceObj(v, ty, ObjKeyTy(ty), 1, <<>>, <<>>)
+    [] v.t = "o" -> VObj(v.k, [i \in 1..Len(v.c) |-> Coerce(v.c[i], FieldTy(ty, v.k[i]))])
+    [] OTHER -> v
 
 \* ---------------------------------------------------------------- well-formed cases (what the generators may emit)
 RECURSIVE ExprOK(_, _)
